@@ -422,7 +422,7 @@ var smtFunRet = map[string]Sort{
 	"modaddr": SBytes, "blocked": SBool, "denom_ok": SBool, "ismod": SBool,
 	"spendable": SBool, "numstr": SStr, "decstr": SStr, "urlunesc": SStr, "urlunesc_ok": SBool,
 	"stk_exists": SBool, "stk_status": SInt, "stk_tokens": SInt, "stk_dshares": SDec, "stk_jailed": SBool,
-	"stk_hasdel": SBool, "stk_delshares": SDec, "stk_total_bonded": SInt,
+	"stk_hasdel": SBool, "stk_delshares": SDec, "stk_total_bonded": SInt, "stk_bonded_of": SInt,
 }
 
 func (ev *Evaluator) call(e *Expr) Val {
